@@ -209,7 +209,12 @@ def shasNode (H : GObj → Sha) (pre : Path) : Node → List (Path × Sha)
 def shasChildren (H : GObj → Sha) (pre : Path) : Children → List (Path × Sha)
   | .nil => []
   | .cons name n rest =>
-    if banned name then shasChildren H pre rest
+    if banned name then
+      -- the entry itself is skipped (`change.name[1] in BANNED_FILENAMES`), but the changes *below* a
+      -- directory called `.git` are not: its blobs and trees are yielded although nothing refers to them
+      (match n with
+        | .dir cs => shasNode H (pre ++ [name]) (.dir cs)
+        | _ => []) ++ shasChildren H pre rest
     else shasNode H (pre ++ [name]) n ++ shasChildren H pre rest
 end
 
@@ -472,6 +477,187 @@ def expPL (H : GObj → Sha) : List (Bytes × PNode) → List Entry
 end
 
 def expRootP (H : GObj → Sha) (cs : List (Bytes × PNode)) : Sha := H (.tree (sortEntries (expPL H cs)))
+
+/-! ### whole histories: the SHA map as it evolves revision by revision -/
+
+/-- adjacent elements are in key order -/
+def sortedBy {α : Type} (key : α → Bytes) : List α → Bool
+  | [] => true
+  | [_] => true
+  | x :: y :: r => bytesLe (key x) (key y) && sortedBy key (y :: r)
+
+/-- one revision of a history: `parents` are positions of earlier revisions in
+the (topologically ordered) history — a position that is not earlier is a
+parent that is not present and is skipped, as `_revision_to_objects` skips the
+parents `has_revisions` does not report —, `evict` are the keys that have
+disappeared from the SHA map since the previous conversion (a cache may lose
+or never have stored any entry: `_tree_to_objects` itself only records the
+leaves it looked at). -/
+structure Rev where
+  parents : List Nat
+  evict : List Key
+  tree : Children
+
+mutual
+/-- the `(file_id, revision) ↦ blob id` entries the incremental conversion of a
+tree hands to `add_cache_entry`, with the ids *it* computed (possibly taken
+from the cache) -/
+def incrEntries (H : GObj → Sha) (cache : Cache) (base : Option Children) (others : List Children)
+    (path : Path) : Node → List (Key × Sha)
+  | .file k c x um => [(k, incrFile H cache base others path k c (.file k c x um))]
+  | .link k t um => [(k, incrLink H cache base path k t (.link k t um))]
+  | .dir cs => incrEntriesC H cache base others path cs
+def incrEntriesC (H : GObj → Sha) (cache : Cache) (base : Option Children) (others : List Children)
+    (path : Path) : Children → List (Key × Sha)
+  | .nil => []
+  | .cons name n rest =>
+    if banned name then incrEntriesC H cache base others path rest
+    else incrEntries H cache base others (path ++ [name]) n ++ incrEntriesC H cache base others path rest
+end
+
+/-- the converted prefix of a history: trees and recorded root tree ids by
+position, and the SHA map -/
+structure HState where
+  trees : List Children
+  roots : List Sha
+  cache : Cache
+
+def HState.empty : HState := ⟨[], [], []⟩
+
+/-- the present parents of a revision with the root tree ids recorded for them -/
+def presentParents (s : HState) (ps : List Nat) : List (Children × Sha) :=
+  ps.filterMap fun i =>
+    match s.trees[i]?, s.roots[i]? with
+    | some t, some x => some (t, x)
+    | _, _ => none
+
+/-- `_update_sha_map_revision` for the next revision of the history: entries
+are evicted, the tree is converted against its present parents with the SHA
+map as it is, the root tree id is recorded and the new blob entries are added
+in front (a newer entry for a key shadows an older one) -/
+def stepRev (H : GObj → Sha) (s : HState) (r : Rev) : HState :=
+  let cache := s.cache.filter fun e => !r.evict.contains e.1
+  let present := presentParents s r.parents
+  let base := present.head?
+  let others := present.tail.map (·.1)
+  let root := incrRoot H cache base others r.tree
+  let new := match base with
+    | some (b, _) =>
+      if sameGitC b r.tree then [] else incrEntriesC H cache (some b) others [] r.tree
+    | none => incrEntriesC H cache none others [] r.tree
+  ⟨s.trees ++ [r.tree], s.roots ++ [root], new ++ cache⟩
+
+/-- `_update_sha_map` over a history in topological order -/
+def runHist (H : GObj → Sha) (s : HState) (h : List Rev) : HState := h.foldl (stepRev H) s
+
+/-- `(file_id, revision)` identifies one text: no key occurs with two payloads -/
+def keysFunctional (ls : List (Key × Bytes)) : Bool :=
+  ls.all fun a => ls.all fun b => a.1 != b.1 || a.2 == b.2
+
+def histLeaves (h : List Rev) : List (Key × Bytes) := h.flatMap fun r => leavesC r.tree
+
+/-! ### a fetched git tree as a native tree, well-formed git trees -/
+
+mutual
+/-- the inventory entries `import_git_blob` / `import_git_tree` create for an
+imported tree: kind from the mode class, `executable` from the mode, every
+non-default mode recorded as unusual (file ids are generated from the path and
+play no role in the export: left empty) -/
+def nativeOf : PNode → Node
+  | .file c m => .file ⟨[], []⟩ c (importExec m) (unusualOf m)
+  | .link t m => .link ⟨[], []⟩ t (unusualOf m)
+  | .dir cs => .dir (nativeOfL cs)
+def nativeOfL : List (Bytes × PNode) → Children
+  | [] => .nil
+  | (n, p) :: rest => .cons n (nativeOf p) (nativeOfL rest)
+end
+
+/-- a tree entry git itself could have written and breezy represents without
+loss: no `.git` name, no submodule, a subtree has mode `040000` exactly, is
+present, non-empty, in git's entry order and made of such entries (fuel as in
+`impEntry`) -/
+def entryOK (st : Store) : Nat → Entry → Bool
+  | 0, _ => false
+  | f + 1, e =>
+    !banned e.name &&
+    match importClass e.mode with
+    | .tree =>
+      e.mode == S_IFDIR &&
+      match st.get e.sha with
+      | some (.tree es) => !es.isEmpty && sortedBy Entry.key es && es.all (entryOK st f)
+      | _ => false
+    | .gitlink => false
+    | .symlink => true
+    | .file => true
+
+/-- the root tree (which may be empty) -/
+def gitTreeOK (st : Store) (fuel : Nat) (root : Sha) : Bool :=
+  match st.get root with
+  | some (.tree es) => sortedBy Entry.key es && es.all (entryOK st fuel)
+  | _ => false
+
+/-! ### what a round trip must preserve: the items of a tree -/
+
+inductive ItemKind where
+  | file | link | dir
+  deriving DecidableEq, Repr
+
+/-- path, kind, content / symlink target, executable bit -/
+structure Item where
+  path : Path
+  kind : ItemKind
+  data : Bytes
+  exec : Bool
+  deriving DecidableEq, Repr
+
+mutual
+/-- does the node contain a file or symlink that git can hold (not below a `.git` name) -/
+def hasLeaf : Node → Bool
+  | .file .. => true
+  | .link .. => true
+  | .dir cs => hasLeafC cs
+def hasLeafC : Children → Bool
+  | .nil => false
+  | .cons name n rest => (!banned name && hasLeaf n) || hasLeafC rest
+end
+
+mutual
+/-- the items of a native tree the property speaks about: every file and
+symlink with its path, content / target and executable bit, and every
+directory that contains one ("empty directories excepted"); entries called
+`.git` cannot exist in a git tree and are left out -/
+def itemsN (pre : Path) : Node → List Item
+  | .file _ c x _ => [⟨pre, .file, c, x⟩]
+  | .link _ t _ => [⟨pre, .link, t, false⟩]
+  | .dir cs => if hasLeafC cs then ⟨pre, .dir, [], false⟩ :: itemsNC pre cs else []
+def itemsNC (pre : Path) : Children → List Item
+  | .nil => []
+  | .cons name n rest =>
+    if banned name then itemsNC pre rest else itemsN (pre ++ [name]) n ++ itemsNC pre rest
+end
+
+mutual
+/-- the items of a fetched tree, as `import_git_blob` sets them -/
+def itemsP (pre : Path) : PNode → List Item
+  | .file c m => [⟨pre, .file, c, importExec m⟩]
+  | .link t _ => [⟨pre, .link, t, false⟩]
+  | .dir cs => ⟨pre, .dir, [], false⟩ :: itemsPL pre cs
+def itemsPL (pre : Path) : List (Bytes × PNode) → List Item
+  | [] => []
+  | (name, p) :: rest => itemsP (pre ++ [name]) p ++ itemsPL pre rest
+end
+
+mutual
+/-- no unusual mode is recorded anywhere (every native history; a tree fetched
+from git may carry some) -/
+def plain : Node → Bool
+  | .file _ _ _ um => um.isNone
+  | .link _ _ um => um.isNone
+  | .dir cs => plainC cs
+def plainC : Children → Bool
+  | .nil => true
+  | .cons _ n rest => plain n && plainC rest
+end
 
 /-! ### git's object id (used by the driver only) -/
 
